@@ -517,7 +517,12 @@ func init() {
 				// crash inside the recovery that replays them
 				if cfg == "flushy/bytewise" || cfg == "default/bytewise" {
 					tasks = append(tasks, crashTask{Cfg: cfg, Ops: []string{"Sput:b", "SputX:a", "Sput:c"}, Full: full, Nested: true},
-						crashTask{Cfg: cfg, Ops: []string{"SputX:a", "re", "SputX:b", "put:c"}, Full: full, Nested: c.Tier == "thorough"})
+						crashTask{Cfg: cfg, Ops: []string{"SputX:a", "re", "SputX:b", "put:c"}, Full: full, Nested: c.Tier == "thorough"},
+						// a multi-entry batch whose journal record spans blocks: the first entries are
+						// complete inside the first chunk, so a record cut in a later chunk must not be
+						// replayed in part
+						crashTask{Cfg: cfg, Ops: []string{"Sput:b", "w:+a,+c=X,-b,+d", "Sput:c"}, Full: full, Nested: c.Tier == "thorough"},
+						crashTask{Cfg: cfg, Ops: []string{"w:+a,+c=X,+b=X,+d", "put:c", "Sput:a"}, Full: true, Nested: c.Tier == "thorough"})
 				}
 				// file numbers handed out and never recorded (the tables of a discarded transaction) before the
 				// write buffer is rotated: the crash leaves a journal whose number is above the manifest's
